@@ -69,3 +69,24 @@ CORPUS += [
     Mut('c02-one-scaler-per-rate-category', 'torchtree/evolution/tree_likelihood.py', 'calculate_treelikelihood_discrete_rescaled', 'scaler, _ = torch.max(…',
         'scaler, _ = torch.max(partial.view(*partial.shape[:-2], -1, *partial.shape[-1:]), -2, keepdim=True)', expect=[('C02.W', 'scalers::calculate_treelikelihood_discrete_rescaled::one-scaler-per-site-over-category-and-state')]),
 ]
+CORPUS += [
+    T('c02-slice-rebuilt-from-its-indices-triple', SP, "string_to_list_index(index_str) for index_str in indices.split(',')",
+      "(lambda s: slice(*s.indices(alignment.sequence_size)) if isinstance(s, slice) else s)(string_to_list_index(index_str)) for index_str in indices.split(',')",
+      expect=[('C02.N', 'evolution::column-selections-resolved-by-python-slicing')]),
+    T('c02-slice-bounds-into-range-by-hand', SP, "                sequences_new[idx] += sequence[index]\n",
+      "                if isinstance(index, slice):\n                    sequences_new[idx] += ''.join(sequence[i] for i in range(index.start or 0, index.stop or len(sequence), index.step or 1))\n"
+      "                else:\n                    sequences_new[idx] += sequence[index]\n",
+      expect=[('C02.N', 'evolution::column-selections-resolved-by-python-slicing')]),
+    T('c02-benign-slice-resolved-through-indices-and-range', SP, "                sequences_new[idx] += sequence[index]\n",
+      "                if isinstance(index, slice):\n                    sequences_new[idx] += ''.join(sequence[i] for i in range(*index.indices(len(sequence))))\n"
+      "                else:\n                    sequences_new[idx] += sequence[index]\n", benign=True),
+    T('c02-tree-ladderized-before-indexing', TM, "    tree.resolve_polytomies(update_bipartitions=True)\n    use_postorder_indices",
+      "    tree.resolve_polytomies(update_bipartitions=True)\n    tree.ladderize(ascending=True)\n    use_postorder_indices", expect=[('C02.N', 'evolution::the-tree-indexed-is-the-tree-written')]),
+    T('c02-read-tree-rerooted-at-midpoint', 'torchtree/evolution/io.py', "    tree.resolve_polytomies(update_bipartitions=True)\n\n    setup_indexes(tree)",
+      "    tree.resolve_polytomies(update_bipartitions=True)\n    tree.reroot_at_midpoint(update_bipartitions=True)\n\n    setup_indexes(tree)", expect=[('C02.N', 'evolution::the-tree-indexed-is-the-tree-written')]),
+    T('c02-benign-bipartitions-encoded-before-indexing', TM, "    tree.resolve_polytomies(update_bipartitions=True)\n    use_postorder_indices",
+      "    tree.resolve_polytomies(update_bipartitions=False)\n    tree.encode_bipartitions()\n    use_postorder_indices", benign=True),
+    T('c02-root-recognised-by-missing-length', TM, "lambda node: node.parent_node is not None", "lambda node: node.edge_length is not None",
+      expect=[('C02.N', 'evolution::branches-are-the-nodes-with-a-parent')]),
+    T('c02-benign-root-recognised-as-seed-node', TM, "lambda node: node.parent_node is not None", "lambda node: node is not tree.seed_node", benign=True),
+]
